@@ -56,7 +56,7 @@ def d1_setter(chk, repo):
     sv = FV(repo, "mesh.Mesh.subregions.setter")
     for st in sv.stmts():
         if isinstance(st, ast.Assign) and isinstance(st.targets[0], ast.Name) and isinstance(st.value, ast.Dict) and not st.value.keys:
-            chk.ob("mesh.Mesh.subregions.setter::empty-iff-none", cond_equiv(sv, path_term(sv, st), sv.spec("subregions is None")),
+            chk.ob("mesh.Mesh.subregions.setter::empty-iff-none", reached_iff(sv, st, sv.spec("subregions is None")),
                    "C14.D1", f"`{sv.src(st)}` under {sv.show(path_term(sv, st))}: given subregions must not be replaced by {{}}", sv.f, st)
     writers = []
     for fi in repo.funcs.values():
